@@ -93,7 +93,7 @@ pub fn run_cloud(points: &[SpacePoint], cfg: Config) -> (String, String, Option<
         cls.push(*first.entry(key(p)).or_insert(i));
     }
     let mut why: Option<String> = None;
-    let mut fail = |w: &mut Option<String>, msg: String| {
+    let fail = |w: &mut Option<String>, msg: String| {
         if w.is_none() {
             *w = Some(msg);
         }
